@@ -594,6 +594,9 @@ fn new_session(plan: Arc<PeerPlan>, sh: Arc<Shared>, has: Arc<Mutex<Vec<bool>>>,
 
 /// Source address used by the k-th dial-in of a peer.
 pub fn dial_in_addr(plan: &PeerPlan, k: usize) -> String {
+    if plan.dial_in_same_addr {
+        return plan.addr.clone();
+    }
     let ip = plan.addr.split(':').next().unwrap_or("10.9.9.9");
     format!("{}:{}", ip, 50000 + k)
 }
